@@ -21,6 +21,10 @@ func genBodyBytes(rng *Rng, n int) []byte {
 
 func hexCase(rng *Rng, n int) string {
 	s := strconv.FormatInt(int64(n), 16)
+	if n > 0 && rng.Intn(40) == 0 {
+		// as many leading zeros as the reader accepts, one more, and sizes that fill 15/16/17 hex digits
+		return pick(rng, []string{strings.Repeat("0", 15-len(s)) + s, strings.Repeat("0", 16-len(s)) + s, "7fffffffffffffff", "fffffffffffffffe", "8000000000000000", "fffffffffffffff", "10000000000000000"})
+	}
 	if rng.Intn(3) == 0 {
 		s = strings.ToUpper(s)
 	}
@@ -187,6 +191,16 @@ func genServeCases(rng *Rng, n int, maxReq int, bigBodies bool, wfPct int) {
 		maxBody := "0"
 		if rng.Intn(6) == 0 {
 			maxBody = pick(rng, []string{"10", "100", "4096", "8192"})
+		}
+		if rng.Intn(8) == 0 {
+			// multipart pre-parsing switched on: the limit check must still come first
+			flags = strings.Replace(flags+"p", "-", "", 1)
+			body := genBodyBytes(rng, 50+rng.Intn(200))
+			mp := "POST /mp HTTP/1.1\r\nHost: h\r\nContent-Type: multipart/form-data; boundary=" + pick(rng, []string{"xyz", "\"q b\"", "----b"}) + "\r\nContent-Length: " + strconv.Itoa(len(body)) + "\r\n\r\n"
+			stream = append(append([]byte(mp), body...), stream...)
+			if rng.Bool() {
+				maxBody = pick(rng, []string{"10", "40"})
+			}
 		}
 		end := "eof"
 		if rng.Intn(6) == 0 {
